@@ -7,10 +7,37 @@ from tensordict import TensorDict
 from .base import Adapter, with_ids
 
 
+class _Hang(Exception):
+    def __init__(self, rows):
+        self.rows = rows
+
+
+class _CountingTables:
+    """IndexTables with an iteration counter: get_machine_index is called once per iteration of
+    the unbounded `while ~ready.all()` loop of FFSPEnv._move_to_next_machine, with the rows that
+    are still not ready.  When the loop runs longer than any state can need (all wait counters
+    are zero after max-duration time units, then a decision point opens within one sweep over
+    the machines) the rows still in the loop are reported instead of hanging the harness."""
+
+    def __init__(self, tables):
+        self._t = tables
+        self.count = 0
+        self.limit = None
+
+    def __getattr__(self, k):
+        return getattr(self._t, k)
+
+    def get_machine_index(self, idx, sub_time_idx):
+        self.count += 1
+        if self.limit is not None and self.count > self.limit:
+            raise _Hang([int(i) for i in torch.as_tensor(idx).flatten().tolist()])
+        return self._t.get_machine_index(idx, sub_time_idx)
+
+
 class _LoopEnv:
     """FFSPEnv as it is used by the decoding loops (`while not td["done"].all(): step`).
 
-    Two facts about the real environment force this thin proxy (everything else is delegated):
+    Three facts about the real environment force this thin proxy (everything else is delegated):
     * IndexTables maps row r to POMO copy r // bs with bs = batch size AT RESET.  The harness
       regroups rows between steps (frontier of the breadth-first expansion, sub-batches of
       finished rows), so bs is re-set to the size of the batch being stepped: every row is
@@ -20,6 +47,9 @@ class _LoopEnv:
       done.all()), so it is outside C02/C04 ("as long as one instance is unfinished"); to keep
       solo and batched runs comparable the proxy shows, in that one situation, the mask the
       environment computes for a finished row next to an unfinished batch-mate.
+    * _move_to_next_machine loops until every unfinished row has an open decision point; if a
+      row never gets one the step does not return.  Such rows are handed back un-stepped, not
+      done and with an EMPTY mask: a dead end, which the C02 monitors report.
     """
 
     def __init__(self, env, refresh_final_mask=True):
@@ -30,14 +60,43 @@ class _LoopEnv:
         return getattr(self._env, k)
 
     def reset(self, td=None, batch_size=None):
-        return self._env.reset(td, batch_size=batch_size)
+        out = self._env.reset(td, batch_size=batch_size)
+        self._env.tables = _CountingTables(self._env.tables)
+        return out
 
-    def step(self, td):
-        self._env.tables.set_bs(max(1, td.batch_size[0]))
-        out = self._env.step(td)["next"]
+    def _raw_step(self, td):
+        tb = self._env.tables
+        tb.set_bs(max(1, td.batch_size[0]))
+        tb.count = 0
+        tb.limit = self._env.num_machine_total * (int(td["job_duration"].max()) + 3) + 8
+        try:
+            out = self._env.step(td)["next"]
+        finally:
+            tb.limit = None
         if self._refresh and bool(out["done"].all()):
             out = self._env._update_step_state(out)
-        return {"next": out}
+        return out
+
+    def step(self, td):
+        bak = td.clone()
+        try:
+            return {"next": self._raw_step(td)}
+        except _Hang as h:
+            n = td.batch_size[0]
+            hung = sorted(set(h.rows))
+            rest = [r for r in range(n) if r not in set(hung)]
+            frozen = bak[torch.tensor(hung)].clone()
+            frozen["action_mask"] = torch.zeros_like(frozen["action_mask"])
+            frozen["done"] = torch.zeros(len(hung), dtype=torch.bool)
+            parts = {r: frozen[k:k + 1] for k, r in enumerate(hung)}
+            if rest:
+                sub = self.step(bak[torch.tensor(rest)].clone())["next"]
+                sub["done"] = sub["done"].reshape(len(rest))
+                for k, r in enumerate(rest):
+                    parts[r] = sub[k:k + 1]
+            keys = [k for k in parts[hung[0]].keys() if all(k in p.keys() for p in parts.values())]
+            out = torch.cat([parts[r].select(*keys) for r in range(n)], 0)
+            return {"next": out}
 
 
 class FFSP(Adapter):
@@ -116,6 +175,13 @@ class FFSP(Adapter):
     def to_td(self, insts):
         return TensorDict({"run_time": torch.tensor([i["rt"] for i in insts], dtype=torch.long)},
                           batch_size=[len(insts)])
+
+    def pad_choice(self, mask):
+        """first offered action; a row that is offered nothing gets the wait action (it is
+        reported as stuck by the driver; starting job 0 again would hang the real loop)"""
+        a = mask.int().argmax(-1)
+        a[~mask.any(-1)] = mask.shape[-1] - 1
+        return a
 
     # ---- reward ------------------------------------------------------------
     def get_reward(self, env, td, actions):
